@@ -13,16 +13,16 @@ REQUIREMENT = "calc_duration(HH:MM, HH:MM) = H:MM:SS of ((end - start) mod 1440)
 def hm(m): return "%02d:%02d" % divmod(m % 1440, 60)
 @lib.bounded
 def impl(a, b):
-    try: return "ok " + tools.calc_duration(a, b)
+    try: return lib.ok(tools.calc_duration(a, b))
     except Exception: return "raised"
 @lib.bounded
 def impl_kw(a, b, form):
     """the same call spelled with keywords, in either order, or from a dict"""
     try:
-        if form == 0: return "ok " + tools.calc_duration(start_time=a, end_time=b)
-        if form == 1: return "ok " + tools.calc_duration(end_time=b, start_time=a)
-        if form == 2: return "ok " + tools.calc_duration(a, end_time=b)
-        return "ok " + tools.calc_duration(**{"end_time": b, "start_time": a})
+        if form == 0: return lib.ok(tools.calc_duration(start_time=a, end_time=b))
+        if form == 1: return lib.ok(tools.calc_duration(end_time=b, start_time=a))
+        if form == 2: return lib.ok(tools.calc_duration(a, end_time=b))
+        return lib.ok(tools.calc_duration(**{"end_time": b, "start_time": a}))
     except Exception: return "raised"
 
 
@@ -69,7 +69,7 @@ def run(tier, rnd, out):
         try: objs[k + 1] = dataclasses.replace(objs[k], start_time=oc_[k + 1]["start"], end_time=oc_[k + 1]["end"]); oc_[k + 1]["slot"] = oc_[k]["slot"]
         except Exception: pass
     def dur(o):
-        try: return "ok " + o.duration
+        try: return lib.ok(o.duration)
         except Exception: return "raised"
     io = [dur(o) for o in objs]; io2 = [dur(o) for o in objs]
     ex = lib.run_model([lib.req("duration_spec", c["start"], c["end"]) for c in oc_])
